@@ -994,3 +994,21 @@ pub fn replay_meta(case: &Value) -> Option<CheckResult> {
         _ => None,
     }
 }
+
+// --- entry points for the fuzz targets -----------------------------------------------------------
+
+pub fn meta_timeout<S: Sc>(idx: u8) -> u64 {
+    timeout_for::<S>(idx)
+}
+pub fn meta_tjson(t: u64) -> Value {
+    tjson(t)
+}
+pub fn meta_projection<S: Sc>(t: u64, ops: &[Op]) -> Result<(), Fail> {
+    check_projection::<S>(t, ops).map(|_| ())
+}
+pub fn meta_reset_copy<S: Sc>(t: u64, prefix: &[Op], suffix: &[Op]) -> Result<(), Fail> {
+    check_reset_copy::<S>(t, prefix, suffix).map(|_| ())
+}
+pub fn meta_insertion<S: Sc>(t: u64, ops: &[Op], ins: &[(u16, u8, u8, u8, u8)]) -> Result<(), Fail> {
+    check_insertion::<S>(t, ops, ins).map(|_| ())
+}
